@@ -59,7 +59,11 @@ Inductive cev :=
 | EvCloseSendRet (c : nat) (r : option cerr)
 | EvHeaderRet (c : nat) (r : mdv + cerr)
 | EvTrailerRet (c : nat) (r : option Z)
-| EvPanic (c : nat).
+| EvPanic (c : nat)
+(* ghost events (history variables of the routing theorems; never observed by the correspondence check) *)
+| EvRead (e : env) (to : option nat)   (* the read loop took e from the transport and routed it to call [to] *)
+| EvTake (c : nat) (e : env)           (* call c took e from its queue *)
+| EvDrop (c : nat) (e : env).          (* the read loop dropped e, held for call c, because c has unregistered *)
 
 (* ---------- state ---------- *)
 Inductive ctxst := CtxLive | CtxCanceled | CtxDeadline.
@@ -261,8 +265,9 @@ Definition r_rl_read (s : state) : option state :=
   | RLRead =>
       match inbox s with
       | e :: rest =>
-          let s1 := mkState (counter s) (rerr s) (rl s) rest (inbox_failed s) (wfail s) (calls s) (log s) in
-          match find_reg (eid e) (calls s) 0 with
+          let to := find_reg (eid e) (calls s) 0 in
+          let s1 := mkState (counter s) (rerr s) (rl s) rest (inbox_failed s) (wfail s) (calls s) (log s ++ [EvRead e to]) in
+          match to with
           | None => Some (add_log s1 [EvUnhandled (eid e)])
           | Some c =>
               match nth_error (calls s) c with
@@ -294,7 +299,7 @@ Definition r_rl_unblock (s : state) : option state :=
           let s1 := mkState (counter s) (rerr s) RLRead (inbox s) (inbox_failed s) (wfail s) (calls s) (log s) in
           match cbuf (k_chan k) with
           | None => Some (set_call s1 c (set_chan k (mkChan (Some e) (cclosed (k_chan k))) (k_reg k)))
-          | Some _ => if cclosed (k_chan k) then Some s1 (* the call has gone: dropped *) else None
+          | Some _ => if cclosed (k_chan k) then Some (add_log s1 [EvDrop c e]) (* the call has gone: dropped *) else None
           end
       end
   | _ => None
@@ -353,7 +358,8 @@ Definition r_wait (c : nat) (s : state) : option state :=
       match k_pc k with
       | PWait =>
           match cbuf (k_chan k) with
-          | Some e => Some (set_call s c (set_pc (set_chan k (mkChan None (cclosed (k_chan k))) (k_reg k)) (PUnreg (classify e))))
+          | Some e => Some (add_log (set_call s c (set_pc (set_chan k (mkChan None (cclosed (k_chan k))) (k_reg k)) (PUnreg (classify e))))
+                                    [EvTake c e])
           | None =>
               if cclosed (k_chan k) then Some (set_call s c (set_pc k (PUnreg (UErr EClosed))))
               else None
@@ -399,6 +405,7 @@ Definition r_loop_read (c : nat) (s : state) : option state :=
       | LRead =>
           match cbuf (k_chan k) with
           | Some e =>
+              let s := add_log s [EvTake c e] in
               let k0 := set_chan k (mkChan None (cclosed (k_chan k))) (k_reg k) in
               (* first envelope: decode the header metadata once *)
               let bad := match s_latch k0 with
@@ -721,3 +728,23 @@ Definition trailer_pending (k : call) : bool := match s_trailerq k with ONone =>
 
 (* the read loop is waiting for room in some call's queue (head-of-line blocking) *)
 Definition rl_blocked (s : state) : bool := match rl s with RLHold _ _ => true | _ => false end.
+
+(* ---------- predicates of the properties ---------- *)
+(* a call has terminated at the client: a unary call has returned, a stream open has failed, or the
+   stream's read loop (which owns the teardown of the stream) is dead *)
+Definition terminated (k : call) : bool :=
+  match k_pc k with
+  | PRet | POpenFailed => true
+  | POpen => negb (loop_alive k)
+  | _ => false
+  end.
+Definition live_calls (s : state) : nat := length (filter (fun k => negb (terminated k)) (calls s)).
+Definition live_loops (s : state) : nat := length (filter loop_alive (calls s)).
+
+(* a thread of the call is held by the environment at a yield point *)
+Definition parked (k : call) : bool :=
+  match k_pc k with PParked => true | _ => false end || match s_recv k with RParked => true | _ => false end.
+
+(* some operation of the call has been invoked and has not returned *)
+Definition any_pending (k : call) : bool :=
+  call_pending k || recv_pending k || send_pending k || header_pending k || trailer_pending k.
